@@ -3,6 +3,7 @@ package p27
 import (
 	"encoding/json"
 	"fmt"
+	"os"
 	"path/filepath"
 	"sync"
 	"testing"
@@ -86,17 +87,29 @@ type world struct {
 	utxos  map[bc.Hash]*utxoRec
 	order  []bc.Hash
 	shapes []string
+	unconf bool // the wallet has unconfirmed outputs
 }
 
-// One wallet store (GoLevelDB) per process, emptied at the start of every case: opening a GoLevelDB
-// allocates and clears its write buffer, which would dominate the cost of a case.
+// The wallet store is a GoLevelDB that is emptied at the start of every case and replaced by a fresh one
+// every 16 cases: opening a GoLevelDB allocates and clears its write buffer (which would dominate the cost
+// of a case), while deleting leaves tombstones that every later prefix scan of the keeper has to skip.
 var (
-	walletOnce sync.Once
 	walletDB   dbm.DB
+	walletDir  string
+	walletUses int
 )
 
 func freshWalletDB(base string) dbm.DB {
-	walletOnce.Do(func() { walletDB = dbm.NewDB("wallet", "leveldb", filepath.Join(base, "wallet")) })
+	if walletDB != nil && walletUses%16 == 0 {
+		walletDB.Close()
+		os.RemoveAll(walletDir)
+		walletDB = nil
+	}
+	if walletDB == nil {
+		walletDir = filepath.Join(base, fmt.Sprintf("wallet%d", walletUses))
+		walletDB = dbm.NewDB("wallet", "leveldb", walletDir)
+	}
+	walletUses++
 	var keys [][]byte
 	it := walletDB.Iterator()
 	for it.Next() {
@@ -254,7 +267,8 @@ func newWorld(base string, chain *protocol.Chain, rng *ev.Rand) (*world, error) 
 		}
 		plans = append(plans, plan{a.idx, a.progs[rng.Intn(len(a.progs))], asset, amount, vote, unconf})
 	}
-	withUnconf := rng.Chance(1, 3)
+	withUnconf := rng.Chance(1, 2)
+	w.unconf = withUnconf
 	for _, a := range w.accts {
 		for ai, asset := range w.assets {
 			isBTM := ai == 0
